@@ -100,7 +100,7 @@ Proof.
   unfold packer.
   set (P := fun st : list (Z * (R * R * R)) * list (grown (T:=R)) => Forall (grown_good ops atoms idx needs) (snd st)).
   change (P (fold_left (fun st nd => fold_left (pack_one ROps m ops wq idx nd) (number_from 0 atoms) st) needs
-                       (omap (fun a => if negb wq && sa_qpeak a then None else Some (sa_part a, (sa_x a, sa_y a, sa_z a))) atoms, []))).
+                       (omap (fun a => if sa_qpeak a then None else Some (sa_part a, (sa_x a, sa_y a, sa_z a))) atoms, []))).
   apply fold_left_inv; [|constructor].
   intros st nd Ind Pst. apply fold_left_inv; [|exact Pst].
   intros st' [i a] Iia Pst'. unfold P in *.
@@ -166,7 +166,7 @@ Proof.
 Qed.
 
 Theorem packer_no_coincide m ops atoms idx needs wq :
-  let init := omap (fun a => if negb wq && sa_qpeak a then None else Some (sa_part a, (sa_x a, sa_y a, sa_z a))) atoms in
+  let init := omap (fun a => if sa_qpeak a then None else Some (sa_part a, (sa_x a, sa_y a, sa_z a))) atoms in
   exists pl, fst (fold_left (fun st nd => fold_left (pack_one ROps m ops wq idx nd) (number_from 0 atoms) st) needs (init, [])) = init ++ pl
              /\ placed_ok m init pl.
 Proof.
@@ -369,7 +369,7 @@ Theorem packer_complete m ops atoms idx needs wq nd i a s px py pz :
   nth_error ops (nd_n nd) = Some s -> apply ROps s (sa_x a) (sa_y a) (sa_z a) = (px, py, pz) ->
   placed_or_there m i (nd_n nd) (sa_part a) (px + (5 - nd_fx nd - 5)) (py + (5 - nd_fy nd - 5)) (pz + (5 - nd_fz nd - 5))
     (fold_left (fun st nd => fold_left (pack_one ROps m ops wq idx nd) (number_from 0 atoms) st) needs
-               (omap (fun a => if negb wq && sa_qpeak a then None else Some (sa_part a, (sa_x a, sa_y a, sa_z a))) atoms, [])).
+               (omap (fun a => if sa_qpeak a then None else Some (sa_part a, (sa_x a, sa_y a, sa_z a))) atoms, [])).
 Proof.
   intros Ind Ha Q E Es Ap.
   set (P := placed_or_there m i (nd_n nd) (sa_part a) (px + (5 - nd_fx nd - 5)) (py + (5 - nd_fy nd - 5)) (pz + (5 - nd_fz nd - 5))).
@@ -379,4 +379,55 @@ Proof.
     + intros st' ia H. apply placed_or_there_mono. exact H.
     + apply (number_from_In atoms 0 i a Ha).
   - intros st nd' H. apply fold_left_inv; [|exact H]. intros st' ia _ H'. apply placed_or_there_mono. exact H'.
+Qed.
+
+(* ---------- what the coincidence test compares with: never a Q-peak.  Every entry of the list the test runs over is the
+   site of an original atom that is not a Q-peak, or the place of an atom the packer appended (repaired 2026-10: a Q-peak
+   within 0.2 A of an image position made packer() drop the image atom when with_qpeaks was set) ---------- *)
+Definition real_site (atoms : list (satom (T:=R))) (p : Z * (R * R * R)) : Prop :=
+  exists a, In a atoms /\ sa_qpeak a = false /\ p = (sa_part a, (sa_x a, sa_y a, sa_z a)).
+
+Definition grown_site (out : list (grown (T:=R))) (p : Z * (R * R * R)) : Prop :=
+  exists g, In g out /\ p = (g_part g, (g_x g, g_y g, g_z g)).
+
+Lemma init_real_site (atoms : list (satom (T:=R))) p :
+  In p (omap (fun a => if sa_qpeak a then None else Some (sa_part a, (sa_x a, sa_y a, sa_z a))) atoms) -> real_site atoms p.
+Proof.
+  induction atoms as [|a atoms IH]; cbn [omap]; intros H; [destruct H|].
+  destruct (sa_qpeak a) eqn:Q.
+  - destruct (IH H) as (b & Ib & Qb & E). exists b. split; [right; exact Ib | split; assumption].
+  - destruct H as [H | H].
+    + exists a. split; [left; reflexivity | split; [exact Q | symmetry; exact H]].
+    + destruct (IH H) as (b & Ib & Qb & E). exists b. split; [right; exact Ib | split; assumption].
+Qed.
+
+Lemma pack_one_sites m ops wq idx nd atoms st ia :
+  (forall p, In p (fst st) -> real_site atoms p \/ grown_site (snd st) p) ->
+  forall p, In p (fst (pack_one ROps m ops wq idx nd st ia)) ->
+            real_site atoms p \/ grown_site (snd (pack_one ROps m ops wq idx nd st ia)) p.
+Proof.
+  intros H. destruct st as [shown out]. destruct ia as [i a]. unfold pack_one. cbn [fst snd] in H.
+  destruct ((negb wq && sa_qpeak a) || negb (Z.eqb (get_idx idx i) (nd_mol nd)) || sa_qpeak a); [exact H|].
+  destruct (nth_error ops (nd_n nd)) as [s|]; [|exact H].
+  destruct (apply ROps s (sa_x a) (sa_y a) (sa_z a)) as [[px py] pz].
+  match goal with |- forall p, In p (fst (if ?c then _ else _)) -> _ => destruct c end; [exact H|].
+  cbn [fst snd]. intros p Ip. apply in_app_or in Ip. destruct Ip as [Ip | [Ip | []]].
+  - destruct (H p Ip) as [Rs | (g & Ig & E)]; [left; exact Rs|].
+    right. exists g. split; [apply in_or_app; left; exact Ig | exact E].
+  - right. eexists. split; [apply in_or_app; right; left; reflexivity|]. cbn [g_part g_x g_y g_z]. symmetry. exact Ip.
+Qed.
+
+Theorem packer_compares_with_atoms_only m ops atoms idx needs wq :
+  let final := fold_left (fun st nd => fold_left (pack_one ROps m ops wq idx nd) (number_from 0 atoms) st) needs
+                 (omap (fun a => if sa_qpeak a then None else Some (sa_part a, (sa_x a, sa_y a, sa_z a))) atoms, []) in
+  forall p, In p (fst final) -> real_site atoms p \/ grown_site (snd final) p.
+Proof.
+  cbv zeta.
+  set (P := fun st : list (Z * (R * R * R)) * list (grown (T:=R)) => forall p, In p (fst st) -> real_site atoms p \/ grown_site (snd st) p).
+  change (P (fold_left (fun st nd => fold_left (pack_one ROps m ops wq idx nd) (number_from 0 atoms) st) needs
+               (omap (fun a => if sa_qpeak a then None else Some (sa_part a, (sa_x a, sa_y a, sa_z a))) atoms, []))).
+  apply fold_left_inv.
+  - intros st nd _ Pst. apply fold_left_inv; [|exact Pst].
+    intros st' ia _ H. unfold P. apply pack_one_sites. exact H.
+  - unfold P. cbn [fst snd]. intros p Ip. left. apply init_real_site. exact Ip.
 Qed.
